@@ -1,6 +1,6 @@
 import Iscp.Model.Call
 import Driver.Util
-/- topic `call` (C16): reset · call c k [wait] · sync k · ack k ok|no · ackunknown · reply tok k · replyunknown tok · incomingn t1,t2 · cancel c · kill -/
+/- topic `call` (C16): reset · call c k [wait] · sync k · ack k ok|no · ackunknown · reply tok k · replyunknown tok · incomingn t1,t2 · cancel c · kill · rt n -/
 namespace Driver.Call
 open Iscp Iscp.Call Driver
 
@@ -49,6 +49,19 @@ def step (d : D) (line : String) : D × String :=
         | (s', _) => (s', acc ++ ["empty"])
     let (s2, got) := pop toks.length s1 []
     ({ d with s := s2 }, "got " ++ joinWith "," got)
+  | ["rt", n] =>
+    -- n sequential call-and-wait round trips by caller 7, nobody calls ReceiveReplyCall meanwhile; afterwards the shared reply
+    -- queue is drained and its length reported
+    let rec go : Nat → Nat → St → Nat → St × Nat
+      | 0, _, s, ok => (s, ok)
+      | m + 1, k, s, ok =>
+        let s1 := call s 7 k true
+        let (s2, _) := ack s1 k true
+        match reply s2 (500000 + k) k with
+        | (s3, .returnedReply _ _) => go m (k + 1) s3 (ok + 1)
+        | (s3, _) => go m (k + 1) s3 ok
+    let (s', ok) := go (nat n) 100000 d.s 0
+    ({ d with s := { s' with replyInbox := [] } }, s!"ok {ok} inbox={s'.replyInbox.length}")
   | ["cancel", c] => let (s', o) := cancel d.s (nat c); ({ d with s := s' }, showOut o)
   | ["kill"] => (d, "reconnected")
   | _ => (d, "bad-op")
